@@ -503,6 +503,8 @@ def core_pool():
           arr(2, ('opt', S('u8'))), vec(('res', 2, 'u8', ('str', 1))), vec(S('u8', 1)), ('tup', 'pair', [S('bool'), S('u8', 1)]),
           ('map', False, ('str', 1), ('map', False, S('u8'), vec(S('i32')))), ('tup', 'tuple', [('opt', ('str', 4)), ('var', [S('f64'), vec(S('i64'))])]),
           vec(('var', [S('i8'), ('tup', 'pair', [S('u16'), ('str', 1)])]))]
+    # a structure with more members than a fixint counts (the member count leaves the one-byte class at 128)
+    P += [st(*([S('u8')] * 130))]
     # structures declared from outside (NOP_EXTERNAL_STRUCTURE): members of every kind, nested, in containers and entries
     xst = lambda *ts: ('tup', 'xstruct', list(ts))
     x1 = xst(S('u8'), ('str', 1), ('opt', S('i64')))
